@@ -170,20 +170,21 @@ def pyNavigate : Json → List Key → Except NavErr Json
       | .error e => .error e
 
 /-- the loop of `_traverse(obj, keys)` for `keys` a tuple: scalars give None; KeyError/IndexError give None; a
-    TypeError (string key on a list) is not caught -/
-def traverseKeys : Json → List Key → Except NavErr Json
+    TypeError (string key on a list) is caught only when `cte` (the `except` clause of the current source names
+    TypeError — read from the source by gen_c29.py; `false` in the tree as snapshotted) -/
+def traverseKeys (cte : Bool) : Json → List Key → Except NavErr Json
   | v, [] => .ok v
   | v, k :: ks =>
       if !v.isContainer then .ok .null else
       match getItem v k with
-      | .ok w => traverseKeys w ks
-      | .error .typeError => .error .typeError
+      | .ok w => traverseKeys cte w ks
+      | .error .typeError => if cte then .ok .null else .error .typeError
       | .error _ => .ok .null
 
 /-- `_traverse(obj, keys)`: `keys is None` → None -/
-def traverse (v : Json) : Option (List Key) → Except NavErr Json
+def traverse (cte : Bool) (v : Json) : Option (List Key) → Except NavErr Json
   | none => .ok .null
-  | some ks => traverseKeys v ks
+  | some ks => traverseKeys cte v ks
 
 /-! ### SQLite JSON1 `json_extract` path lookup (backend model, validated against the real library every run) -/
 
@@ -264,22 +265,28 @@ def pyJsonUnwrap (value : Option Text) : Option Text :=
   | some t => if "[null,".toList.isPrefixOf t then some ((t.drop 6).dropLast) else none
   | none => none
 
-/-- `py_json_extract(expr, '$.__non_existent_json_attr_name__', path)`: the two-path form always dumps the list -/
-def pyJsonExtract2 (doc : Json) (keys : Option (List Key)) : Except NavErr Text :=
-  match traverse doc keys with
-  | .ok v => .ok (dumps (.arr [.null, v]))
+def nonExistentKey : Text := "__non_existent_json_attr_name__".toList
+
+/-- `py_json_extract(expr, '$.__non_existent_json_attr_name__', path)`: both paths are traversed, the two-path form
+    always dumps the list of results -/
+def pyJsonExtract2 (cte : Bool) (doc : Json) (keys : Option (List Key)) : Except NavErr Text :=
+  match traverse cte doc (some [.name nonExistentKey]) with
   | .error e => .error e
+  | .ok a =>
+    match traverse cte doc keys with
+    | .ok v => .ok (dumps (.arr [a, v]))
+    | .error e => .error e
 
 /-- the value a single-path `py_json_extract(expr, path)` hands to SQLite: containers as text, scalars as they are -/
-def pyJsonExtract1 (doc : Json) (keys : Option (List Key)) : Except NavErr Json :=
-  match traverse doc keys with
+def pyJsonExtract1 (cte : Bool) (doc : Json) (keys : Option (List Key)) : Except NavErr Json :=
+  match traverse cte doc keys with
   | .ok (.arr xs) => .ok (.str (dumps (.arr xs)))
   | .ok (.obj kvs) => .ok (.str (dumps (.obj kvs)))
   | r => r
 
 /-- what `JSON_QUERY` (`py_json_unwrap(py_json_extract(doc, '$.__non_existent…', path))`) evaluates to -/
-def jsonQueryFallback (doc : Json) (keys : Option (List Key)) : Except NavErr (Option Text) :=
-  match pyJsonExtract2 doc keys with
+def jsonQueryFallback (cte : Bool) (doc : Json) (keys : Option (List Key)) : Except NavErr (Option Text) :=
+  match pyJsonExtract2 cte doc keys with
   | .ok t => .ok (pyJsonUnwrap (some t))
   | .error e => .error e
 
@@ -319,8 +326,8 @@ def isStrItem (k : Text) : Json → Bool
   | _ => false
 
 /-- `py_json_contains(expr, path, key)` for a `str` key: `type(expr) in (list, dict) and key in expr` -/
-def pyJsonContains (doc : Json) (keys : Option (List Key)) (key : Text) : Except NavErr Bool :=
-  match traverse doc keys with
+def pyJsonContains (cte : Bool) (doc : Json) (keys : Option (List Key)) (key : Text) : Except NavErr Bool :=
+  match traverse cte doc keys with
   | .ok (.arr xs) => .ok (xs.any (isStrItem key))
   | .ok (.obj kvs) => .ok ((kvs.lookup key).isSome)
   | .ok _ => .ok false
@@ -338,8 +345,8 @@ def pyJsonArrayLength : Json → Nat
   | _ => 0
 
 /-- `py_json_nonzero(expr, path)` (registered as a UDF; `JSON_NONZERO` does not use it) -/
-def pyJsonNonzero (doc : Json) (keys : Option (List Key)) : Except NavErr Bool :=
-  match traverse doc keys with
+def pyJsonNonzero (cte : Bool) (doc : Json) (keys : Option (List Key)) : Except NavErr Bool :=
+  match traverse cte doc keys with
   | .ok v => .ok (pyTruthy v)
   | .error e => .error e
 
@@ -371,16 +378,18 @@ def pySlice (xs : List α) (i j : Option Int) : List α :=
   let hi := match j with | none => n | some j => adjIdx n j
   (xs.drop lo.toNat).take (hi - lo).toNat
 
-/-- `py_array_slice(array, start, stop)` = `array[start:stop]` -/
-def pyArraySlice (xs : List α) (start stop : Option Int) : List α := pySlice xs start stop
+/-- `py_array_slice(array, start, stop)` = `array[start:stop]`; with `clamp` (the current source maps a still-negative
+    bound to 0 — probed by gen_c29.py; `false` in the tree as snapshotted) negative bounds are clamped first -/
+def pyArraySlice (clamp : Bool) (xs : List α) (start stop : Option Int) : List α :=
+  if clamp then pySlice xs (start.map (fun v => max v 0)) (stop.map (fun v => max v 0)) else pySlice xs start stop
 
 /-- SQLite: `x.arr[i]` → `py_array_index(arr, _index(i, from_one=False, plus_one=True))` (constant index) -/
 def sqliteArrayIndex (xs : List α) (i : Int) : Option α :=
   pyArrayIndex xs (indexConst false true i xs.length)
 
 /-- SQLite: `x.arr[a:b]` → `py_array_slice(arr, _index(a, False, True) or null, _index(b, False, False) or null)` -/
-def sqliteArraySlice (xs : List α) (a b : Option Int) : List α :=
-  pyArraySlice xs (a.map (fun v => indexConst false true v xs.length)) (b.map (fun v => indexConst false false v xs.length))
+def sqliteArraySlice (clamp : Bool) (xs : List α) (a b : Option Int) : List α :=
+  pyArraySlice clamp xs (a.map (fun v => indexConst false true v xs.length)) (b.map (fun v => indexConst false false v xs.length))
 
 /-- PostgreSQL `arr[p]` (1-based; outside the bounds → NULL) — backend model -/
 def pgArrayIndex (xs : List α) (p : Int) : Option α :=
